@@ -74,7 +74,7 @@ def build(case):
     C.iotaVal = case['iota']
     if case.get('R0') is not None:
         C.R0 = case['R0']
-    if case['sub'] % 5 == 4 and len(case['nprocs']) == 1:
+    if case.get('strat', case['sub']) % 5 == 4 and len(case['nprocs']) == 1:
         # a layout that stores z first and r second (r distributed over the SECOND direction of the process grid)
         pz = 2 if case['nz'] >= 2 else 1
         lay = Layout('z_r_theta', [pz, case['nprocs'][0]], [2, 0, 1], eta, [case['sub'] % pz, case['rank'][0]])
@@ -88,14 +88,14 @@ def build(case):
     ParallelGradient(bs, eta, lay, C2, order=case['order'])
     # a rotational transform that depends on the radius (a Constants object whose `iota` is overridden), on every kind of radial block
     # (finding F18, repaired: the table of theta positions covered all radii but was read with the local radial index)
-    rdep = case['iota'] != 0.0 and case['sub'] % 3 == 0
+    rdep = case['iota'] != 0.0 and case.get('strat', case['sub']) % 3 == 0
 
     r_first, r_last = float(r[0]), float(r[-1])
 
     def make_iota(i0):
         if not rdep:
             return None
-        if case['sub'] % 6 == 3:
+        if case.get('strat', case['sub']) % 6 == 3:
             # reversed shear: exactly the same value on the first and the last radius of the grid, other values in between
             return lambda rr=C.rp: i0 * (1.0 + 0.15 * (np.asarray(rr, dtype=float) - r_first) * (np.asarray(rr, dtype=float) - r_last))
         return lambda rr=C.rp: i0 * (1.0 + 0.15 * np.asarray(rr, dtype=float))
@@ -164,9 +164,9 @@ def _run_case(chk, drv, case, stats):
     ri = int(rng.randint(B['nr']))
     tag = dict(case, rIdx=ri)
     phi = rng.uniform(-1, 1, size=(nz, nq)) * rng.choice([1.0, 1e3, 1e-3])
-    if case['sub'] % 4 == 1:
+    if case.get('strat', case['sub']) % 4 == 1:
         # a potential of very small amplitude (the early linear phase) / a small variation on a large offset
-        phi = phi * 1e-9 / max(1e-300, float(np.abs(phi).max())) if case['sub'] % 8 == 1 else 1e3 + 1e-3 * phi / float(np.abs(phi).max())
+        phi = phi * 1e-9 / max(1e-300, float(np.abs(phi).max())) if case.get('strat', case['sub']) % 8 == 1 else 1e3 + 1e-3 * phi / float(np.abs(phi).max())
     der = np.full((nz, nq), np.nan)
     out = pg.parallel_gradient(phi, ri, der)
     if not np.isfinite(der).all():
@@ -451,7 +451,9 @@ def run(chk):
         for it in range(chk.n(35, 350)):
             run_case(chk, drv, gen_case(chk.rng, 'exact'), stats)
         for it in range(chk.n(45, 450)):
-            run_case(chk, drv, gen_case(chk.rng, 'generic'), stats)
+            # `strat` (the position in the run, not a random number) decides which special features a case gets: every run of the check
+            # has every feature, whatever the seed
+            run_case(chk, drv, dict(gen_case(chk.rng, 'generic'), strat=it), stats)
         fieldline_constants(chk)
         if not chk.quick():
             convergence_smoke(chk)
